@@ -127,6 +127,8 @@ func init() {
 		"internal/abi.Escape":              func(fr *frame, a []value) value { return a[0] },
 
 		"maps.clone":            extMapsClone,
+		"(*hash/fnv.sum64).Write":  func(fr *frame, a []value) value { return extFnvWrite(fr, a, "fnv64") },
+		"(*hash/fnv.sum64a).Write": func(fr *frame, a []value) value { return extFnvWrite(fr, a, "fnv64a") },
 		"strings.Clone":         func(fr *frame, a []value) value { return a[0] },
 		"unique.Make":           extUniqueMake,
 		"(unique.Handle).Value": extUniqueValue,
@@ -792,4 +794,27 @@ func extMapsClone(fr *frame, a []value) value {
 		c.live++
 	}
 	return iface{t: it.t, v: c}
+}
+
+// extFnvWrite abstracts FNV-64 over symbolic data as an uninterpreted function
+// (sound for every property that does not depend on the absence of collisions).
+func extFnvWrite(fr *frame, a []value, name string) value {
+	p := a[0].(*value)
+	data := a[1].([]value)
+	_, stSym := (*p).(*Term)
+	sym := stSym
+	for _, b := range data {
+		if _, ok := b.(*Term); ok {
+			sym = true
+		}
+	}
+	if !sym {
+		return notHandled{}
+	}
+	st := liftVal(*p)
+	for _, b := range data {
+		st = mkUF(name, 64, false, st, mkConv(liftVal(b), 64, false))
+	}
+	*p = termToValue(st)
+	return tuple{len(data), iface{}}
 }
